@@ -1032,3 +1032,104 @@ Proof.
   split; [apply chain_of_sound with (fuel := 3); vm_compute; reflexivity|].
   split; [rep_wit|]. split; [vm_compute; lia | vm_compute; lia].
 Qed.
+
+(* ------------------------------------------------------------------------------------------ *)
+(* THE REFINEMENT THROUGH THE COMPILER, fragment FC (closures over the locals of main)         *)
+(* ------------------------------------------------------------------------------------------ *)
+(* Fragment FC (C06SimFcDefs.in_fc): one function `main`; cards of main:  SetGlobalVar g e | SetVar x e (declares the
+   data local x or assigns it) | SetVar c (Closure [] body) (declares the local c holding a closure; c a new name) |
+   SetGlobalVar r (DynamicCall (ReadVar c) []) (calls the closure c; r := nil).  A closure body is a list of
+   SetGlobalVar g e | SetVar x e  with x a data local of main declared BEFORE the closure: a captured variable.
+   Expressions: C01's F1 (ScalarInt, ScalarNil, ReadVar, Not, Add Sub Mul Less ...) that never read a closure local; in a
+   body a ReadVar of a data local of main declared before the closure is captured, every other name is a global.
+   The direct meaning C06SimFcDefs.obs_fc keeps ONE store of main's data locals; a closure body runs on that store
+   (restricted to the names visible where the closure was created) and its writes go to that store: capture by
+   reference, sharing between sibling closures and visibility of the writes in main are built into the meaning.
+
+   PROVED (reference half, C06SimFcRef.v .. C06SimFcRef4.v): C06_fc_reference_meaning - for every program of FC,
+     eval_program fuel M host = PObs o  implies  (ob_kind o, ob_globals o) = obs_fc (main_cards M):
+   RefSem's cells / scopes / closure records compute exactly that meaning (the invariant C06SimFcRef2.inv: main's scope
+   maps each data local to a cell holding its value, injectively; each closure local's cell holds VClosure k, record k
+   keeps the body and a scope that agrees with main's scope on the names visible at creation).
+   VALIDATED BY COMPUTATION ONLY (the Examples below): the compiler half - compile M emits
+   encode (C06SimFcDefs.code_all_fc ..) (Goto over the body, body with ReadUpvalue / SetUpvalue, ScalarNil Return,
+   Closure label 0, CopyLast RegisterUpvalue slot 1 per captured slot in order of first use, SetLocalVar; at the end of
+   main CloseUpvalue slot for a captured local and Pop for the others) and the closure labels C06SimFcDefs.labels_fc -
+   and the VM half - Vm.run of the compiled code gives the kind and the globals of obs_fc.
+   MISSING for the closed theorem C06_closure_sim_fc (compile = COk B and eval_program = PObs o imply Vm.run agrees):
+   the proofs of these two halves for all programs of FC (the compiler half in the style of C01SimComp5/9 with
+   compile_begin / resolve_upvalue / emit_upvalues / pop_locals with captured locals; the VM half in the style of
+   C01SimF5/F9b using C06_rep_register_upvalue, C06_rep_read_upvalue / write_upvalue, C06_vm_closure_body). *)
+From Cao Require C06SimFcDefs C06SimFcRef4 C01SimDefs Compiler CompilerProofs C15Link.
+
+Theorem C06_fc_reference_meaning :
+  forall (fuel : nat) (M : module) (host : list str) (o : obs),
+    C06SimFcDefs.in_fc M = true -> eval_program fuel M host = PObs o ->
+    (ob_kind o, ob_globals o) = C06SimFcDefs.obs_fc (C01SimDefs.main_cards M).
+Proof. exact C06SimFcRef4.eval_program_fc. Qed.
+Print Assumptions C06_fc_reference_meaning.
+
+(* x, y data locals; inc := fn(){ x := x + y } and get := fn(){ out := x; o2 := out - z } are siblings that share x
+   (get also captures z, declared between them; inc cannot see z); main calls inc, get, writes x itself, calls get
+   again and reads x back: out = 22 - the write of inc (12) and main's write (+10) seen by get -, fin = 22;
+   then an unset global is read: VarNotFound, the card after it does not run. *)
+Definition fc_call0 (c : string) : card := CDynamicCall (CReadVar (s c)) [].
+Definition fc_example : module :=
+  prog [("main", fn []
+    [CSetVar (s "x") (CScalarInt 5);
+     CSetVar (s "y") (CScalarInt 7);
+     CSetVar (s "inc") (CClosure [] [CSetVar (s "x") (CBin BAdd (CReadVar (s "x")) (CReadVar (s "y")))]);
+     CSetVar (s "z") (CScalarInt 100);
+     CSetVar (s "get") (CClosure [] [CSetGlobalVar (s "out") (CReadVar (s "x"));
+                                     CSetGlobalVar (s "o2") (CBin BSub (CReadVar (s "out")) (CReadVar (s "z")))]);
+     CSetGlobalVar (s "r0") (fc_call0 "inc");
+     CSetGlobalVar (s "r") (fc_call0 "get");
+     CSetVar (s "x") (CBin BAdd (CReadVar (s "x")) (CScalarInt 10));
+     CSetGlobalVar (s "r") (fc_call0 "get");
+     CSetGlobalVar (s "fin") (CReadVar (s "x"));
+     CSetGlobalVar (s "bad") (CReadVar (s "nope"));
+     CSetGlobalVar (s "never") (CScalarInt 1)])].
+(* the same without the failing read: the run reaches the end of main (CloseUpvalue / Pop, Exit) *)
+Definition fc_example_ok : module :=
+  prog [("main", fn []
+    [CSetVar (s "x") (CScalarInt 1);
+     CSetVar (s "inc") (CClosure [] [CSetVar (s "x") (CBin BAdd (CReadVar (s "x")) (CScalarInt 1))]);
+     CSetVar (s "get") (CClosure [] [CSetGlobalVar (s "out") (CReadVar (s "x"))]);
+     CSetGlobalVar (s "r") (fc_call0 "inc");
+     CSetGlobalVar (s "r") (fc_call0 "inc");
+     CSetGlobalVar (s "r") (fc_call0 "get");
+     CSetGlobalVar (s "seen") (CReadVar (s "out"));
+     CSetVar (s "x") (CBin BMul (CReadVar (s "x")) (CScalarInt 10));
+     CSetGlobalVar (s "r") (fc_call0 "get");
+     CSetGlobalVar (s "mine") (CReadVar (s "x"))])].
+
+Definition fc_mainh (M : module) : N :=
+  match Compiler.into_ir_stream M 64 with inr (f :: _) => Compiler.fi_handle f | _ => 0%N end.
+Definition fc_agrees (M : module) (fuel : nat) (names : list string) (expect : okind * list (str * tree)) : Prop :=
+  match Compiler.compile M CompilerProofs.default_options, eval_program fuel M [] with
+  | Compiler.COk B, PObs o =>
+      let cards := C01SimDefs.main_cards M in
+      C06SimFcDefs.in_fc M = true /\
+      (ob_kind o, ob_globals o) = expect /\
+      C06SimFcDefs.obs_fc cards = expect /\
+      (* the compiler half, on this program: the code and the closure labels *)
+      (let code := Bytecode.encode (C06SimFcDefs.code_all_fc (Compiler.p_ids B) (fc_mainh M) cards) in
+       firstn (List.length code) (Compiler.p_bytecode B) = code) /\
+      Forall (fun kv => Compiler.nm_find (fst kv) (Compiler.p_labels B) = Some (snd kv))
+             (C06SimFcDefs.labels_fc (Compiler.p_ids B) (fc_mainh M) [] 0 0 cards) /\
+      (* the VM half, on this program *)
+      let r := Vm.run C06SimWitness.wnofloat Vm.Debug fuel (C15Link.to_vm B) Vm.fresh_state in
+      C01SimDefs.vm_kind (fst r) = Some (ob_kind o) /\
+      map (fun n => option_map C01SimDefs.vm_tree (Vm.read_var_by_name (C15Link.to_vm B) (snd r) (s n))) names
+      = map (fun n => RefSem.assoc (s n) (ob_globals o)) names
+  | _, _ => False
+  end.
+
+Example C06_fc_instance :
+  fc_agrees fc_example 500 ["out"; "o2"; "r0"; "r"; "fin"; "bad"; "never"; "x"; "inc"]
+    (KErr RefSem.EVarNotFound, [(s "r0", TrNil); (s "out", TrInt 22); (s "o2", TrInt (-78)); (s "r", TrNil); (s "fin", TrInt 22)]).
+Proof. vm_compute. repeat split; repeat constructor. Qed.
+Example C06_fc_instance_ok :
+  fc_agrees fc_example_ok 500 ["out"; "seen"; "r"; "mine"; "x"; "inc"; "get"]
+    (KOk, [(s "r", TrNil); (s "out", TrInt 30); (s "seen", TrInt 3); (s "mine", TrInt 30)]).
+Proof. vm_compute. repeat split; repeat constructor. Qed.
